@@ -122,6 +122,37 @@ pub fn ata(owner: &Pubkey, mint: &Pubkey, token_program: &Pubkey) -> Pubkey {
     .0
 }
 
+thread_local! {
+    /// mints with a transfer hook in the current world: mint -> accounts the hook needs (validation account, hook program)
+    pub static HOOK_MINTS: RefCell<BTreeMap<Pubkey, Vec<Pubkey>>> = RefCell::new(BTreeMap::new());
+}
+
+/// remaining-accounts slices for the transfer hooks of the given (type, mint) pairs
+pub fn hook_remaining(pairs: &[(AccountsType, Pubkey)]) -> (Vec<RemainingAccountsSlice>, Vec<(Pubkey, bool)>) {
+    let mut slices = Vec::new();
+    let mut rem = Vec::new();
+    HOOK_MINTS.with(|h| {
+        let h = h.borrow();
+        for (t, m) in pairs {
+            if let Some(accts) = h.get(m) {
+                slices.push(RemainingAccountsSlice { accounts_type: t.clone(), length: accts.len() as u8 });
+                for a in accts {
+                    rem.push((*a, false));
+                }
+            }
+        }
+    });
+    (slices, rem)
+}
+
+fn rai(slices: Vec<RemainingAccountsSlice>) -> Option<RemainingAccountsInfo> {
+    if slices.is_empty() {
+        None
+    } else {
+        Some(RemainingAccountsInfo { slices })
+    }
+}
+
 pub fn mk(accounts: impl ToAccountMetas, data: impl InstructionData) -> Ix {
     Ix {
         program_id: wp(),
@@ -547,27 +578,33 @@ pub fn decrease_liquidity(a: &LiqAccounts, liquidity: u128, min_a: u64, min_b: u
 }
 
 pub fn increase_liquidity_v2(a: &LiqAccounts, liquidity: u128, max_a: u64, max_b: u64) -> Ix {
-    mk(
+    let (hs, hrem) = hook_remaining(&[(AccountsType::TransferHookA, a.pool.mint_a), (AccountsType::TransferHookB, a.pool.mint_b)]);
+    let mut ix = mk(
         modify_liquidity_v2_accounts(a),
         wi::IncreaseLiquidityV2 {
             liquidity_amount: liquidity,
             token_max_a: max_a,
             token_max_b: max_b,
-            remaining_accounts_info: None,
+            remaining_accounts_info: rai(hs),
         },
-    )
+    );
+    push_remaining(&mut ix, &hrem);
+    ix
 }
 
 pub fn decrease_liquidity_v2(a: &LiqAccounts, liquidity: u128, min_a: u64, min_b: u64) -> Ix {
-    mk(
+    let (hs, hrem) = hook_remaining(&[(AccountsType::TransferHookA, a.pool.mint_a), (AccountsType::TransferHookB, a.pool.mint_b)]);
+    let mut ix = mk(
         modify_liquidity_v2_accounts(a),
         wi::DecreaseLiquidityV2 {
             liquidity_amount: liquidity,
             token_min_a: min_a,
             token_min_b: min_b,
-            remaining_accounts_info: None,
+            remaining_accounts_info: rai(hs),
         },
-    )
+    );
+    push_remaining(&mut ix, &hrem);
+    ix
 }
 
 pub fn increase_liquidity_by_token_amounts_v2(
@@ -577,7 +614,8 @@ pub fn increase_liquidity_by_token_amounts_v2(
     min_sqrt_price: u128,
     max_sqrt_price: u128,
 ) -> Ix {
-    mk(
+    let (hs, hrem) = hook_remaining(&[(AccountsType::TransferHookA, a.pool.mint_a), (AccountsType::TransferHookB, a.pool.mint_b)]);
+    let mut ix = mk(
         modify_liquidity_v2_accounts(a),
         wi::IncreaseLiquidityByTokenAmountsV2 {
             method: whirlpool::instructions::IncreaseLiquidityMethod::ByTokenAmounts {
@@ -586,9 +624,11 @@ pub fn increase_liquidity_by_token_amounts_v2(
                 min_sqrt_price,
                 max_sqrt_price,
             },
-            remaining_accounts_info: None,
+            remaining_accounts_info: rai(hs),
         },
-    )
+    );
+    push_remaining(&mut ix, &hrem);
+    ix
 }
 
 #[derive(Clone, Debug, PartialEq, Eq)]
@@ -611,7 +651,8 @@ pub fn reposition_liquidity_v2(
     new_max_b: u64,
 ) -> Ix {
     let a = &r.liq;
-    mk(
+    let (hs, hrem) = hook_remaining(&[(AccountsType::TransferHookDepositA, a.pool.mint_a), (AccountsType::TransferHookDepositB, a.pool.mint_b), (AccountsType::TransferHookWithdrawalA, a.pool.mint_a), (AccountsType::TransferHookWithdrawalB, a.pool.mint_b)]);
+    let mut ix = mk(
         wa::RepositionLiquidityV2 {
             whirlpool: a.pool.whirlpool,
             token_program_a: a.pool.prog_a,
@@ -643,9 +684,11 @@ pub fn reposition_liquidity_v2(
                 new_range_token_max_a: new_max_a,
                 new_range_token_max_b: new_max_b,
             },
-            remaining_accounts_info: None,
+            remaining_accounts_info: rai(hs),
         },
-    )
+    );
+    push_remaining(&mut ix, &hrem);
+    ix
 }
 
 #[derive(Clone, Debug, PartialEq, Eq)]
@@ -707,16 +750,14 @@ fn swap_inner(s: &SwapAccounts, a: &SwapArgs) -> Ix {
 }
 
 pub fn swap_v2(s: &SwapAccounts, a: &SwapArgs, supplemental: &[Pubkey]) -> Ix {
-    let rai = if supplemental.is_empty() {
-        None
-    } else {
-        Some(RemainingAccountsInfo {
-            slices: vec![RemainingAccountsSlice {
-                accounts_type: AccountsType::SupplementalTickArrays,
-                length: supplemental.len() as u8,
-            }],
-        })
-    };
+    let (mut hs, hrem) = hook_remaining(&[(AccountsType::TransferHookA, s.pool.mint_a), (AccountsType::TransferHookB, s.pool.mint_b)]);
+    if !supplemental.is_empty() {
+        hs.push(RemainingAccountsSlice {
+            accounts_type: AccountsType::SupplementalTickArrays,
+            length: supplemental.len() as u8,
+        });
+    }
+    let rai = rai(hs);
     let mut ix = mk(
         wa::SwapV2 {
             token_program_a: s.pool.prog_a,
@@ -744,6 +785,7 @@ pub fn swap_v2(s: &SwapAccounts, a: &SwapArgs, supplemental: &[Pubkey]) -> Ix {
             remaining_accounts_info: rai,
         },
     );
+    push_remaining(&mut ix, &hrem);
     let rem: Vec<(Pubkey, bool)> = supplemental.iter().map(|k| (*k, true)).collect();
     push_remaining(&mut ix, &rem);
     ix
@@ -827,7 +869,12 @@ pub fn two_hop_swap_v2(t: &TwoHopAccounts, a: &TwoHopArgs) -> Ix {
     } else {
         (t.two.vault_b, t.two.mint_a, t.two.prog_a, t.two.vault_a, t.owner_two_a)
     };
-    mk(
+    let (hs, hrem) = hook_remaining(&[
+        (AccountsType::TransferHookInput, mint_in),
+        (AccountsType::TransferHookIntermediate, mint_mid),
+        (AccountsType::TransferHookOutput, mint_out),
+    ]);
+    let mut ix = mk(
         wa::TwoHopSwapV2 {
             whirlpool_one: t.one.whirlpool,
             whirlpool_two: t.two.whirlpool,
@@ -862,9 +909,11 @@ pub fn two_hop_swap_v2(t: &TwoHopAccounts, a: &TwoHopArgs) -> Ix {
             a_to_b_two: a.a_to_b_two,
             sqrt_price_limit_one: a.sqrt_price_limit_one,
             sqrt_price_limit_two: a.sqrt_price_limit_two,
-            remaining_accounts_info: None,
+            remaining_accounts_info: rai(hs),
         },
-    )
+    );
+    push_remaining(&mut ix, &hrem);
+    ix
 }
 
 pub fn update_fees_and_rewards(whirlpool: &Pubkey, position: &Pubkey, ta_lower: &Pubkey, ta_upper: &Pubkey) -> Ix {
@@ -897,7 +946,8 @@ pub fn collect_fees(a: &LiqAccounts) -> Ix {
 }
 
 pub fn collect_fees_v2(a: &LiqAccounts) -> Ix {
-    mk(
+    let (hs, hrem) = hook_remaining(&[(AccountsType::TransferHookA, a.pool.mint_a), (AccountsType::TransferHookB, a.pool.mint_b)]);
+    let mut ix = mk(
         wa::CollectFeesV2 {
             whirlpool: a.pool.whirlpool,
             position_authority: a.authority,
@@ -914,9 +964,11 @@ pub fn collect_fees_v2(a: &LiqAccounts) -> Ix {
             memo_program: memo(),
         },
         wi::CollectFeesV2 {
-            remaining_accounts_info: None,
+            remaining_accounts_info: rai(hs),
         },
-    )
+    );
+    push_remaining(&mut ix, &hrem);
+    ix
 }
 
 pub fn collect_protocol_fees(pool: &PoolKeys, authority: &Pubkey, dest_a: &Pubkey, dest_b: &Pubkey) -> Ix {
@@ -936,7 +988,8 @@ pub fn collect_protocol_fees(pool: &PoolKeys, authority: &Pubkey, dest_a: &Pubke
 }
 
 pub fn collect_protocol_fees_v2(pool: &PoolKeys, authority: &Pubkey, dest_a: &Pubkey, dest_b: &Pubkey) -> Ix {
-    mk(
+    let (hs, hrem) = hook_remaining(&[(AccountsType::TransferHookA, pool.mint_a), (AccountsType::TransferHookB, pool.mint_b)]);
+    let mut ix = mk(
         wa::CollectProtocolFeesV2 {
             whirlpools_config: pool.config,
             whirlpool: pool.whirlpool,
@@ -952,9 +1005,11 @@ pub fn collect_protocol_fees_v2(pool: &PoolKeys, authority: &Pubkey, dest_a: &Pu
             memo_program: memo(),
         },
         wi::CollectProtocolFeesV2 {
-            remaining_accounts_info: None,
+            remaining_accounts_info: rai(hs),
         },
-    )
+    );
+    push_remaining(&mut ix, &hrem);
+    ix
 }
 
 pub fn close_position(authority: &Pubkey, receiver: &Pubkey, p: &PositionKeys) -> Ix {
